@@ -43,7 +43,130 @@ def load():
     ns_j, d2 = shadow.load("autograd/numpy/numpy_jvps.py", dict(common, defjvp=rj.defjvp, defjvp_argnum=rj.defjvp_argnum, def_linear=rj.def_linear, register_notrace=rj.register_notrace,
                                                                  **{n: ns_v[n] for n in names if n in ns_v}))
     _cache["rec"] = (rv, rj, anp, d1 + d2)
+    _cache["ns_v"] = ns_v
     return _cache["rec"]
+
+
+LINALG_NAMES = ("inv", "det", "slogdet", "cholesky", "pinv", "solve", "eigh", "norm", "svd", "eig", "eigvals", "eigvalsh", "matrix_rank", "lstsq", "qr", "matrix_power", "multi_dot", "tensorsolve", "tensorinv", "cond")
+
+
+def load_linalg():
+    """autograd/numpy/linalg.py shadow-loaded on the same abstract anp; its `wrap_namespace(npla.__dict__, globals())` is replaced by a binding of the
+    wrapped names to the assumed NumPy-2 shape contracts of vlib/shapex.linalg_impls (names without a contract are unmodelled => their rules are reported uncovered)."""
+    if "la" in _cache:
+        return _cache["la"]
+    import types
+    from functools import partial
+    rv0, rj0, anp, _ = load()
+    rv, rj = shadow.Recorder(), shadow.Recorder()
+    la = shadow.Namespace("la", sx.linalg_impls())
+
+    def wrap_namespace(old, new):
+        for nm in LINALG_NAMES:
+            new[nm] = getattr(la, nm)
+    ns, dropped = shadow.load("autograd/numpy/linalg.py", dict(anp=anp, npla=types.SimpleNamespace(), partial=partial, defvjp=rv.defvjp, defjvp=rj.defjvp, defvjp_argnum=rv.defvjp_argnum,
+                                                              defjvp_argnum=rj.defjvp_argnum, def_linear=rj.def_linear, isbox=lambda x: True, wrap_namespace=wrap_namespace,
+                                                              unbroadcast_f=_cache["ns_v"]["unbroadcast_f"], unbroadcast=_cache["ns_v"]["unbroadcast"], primitive=rv.primitive))
+    _cache["la"] = (rv, rj, la, anp, dropped)
+    return _cache["la"]
+
+
+def _linalg_cases(tier):
+    A = lambda *d, kind="real": ("A", d, kind)
+    C = []
+    batches = [(), ("p",), ("p", "q")] if tier == "quick" else [(), ("p",), ("p", "q"), ("p", "q", "r")]
+    for b in batches:
+        for kind in ("real", "complex"):
+            k = "" if kind == "real" else " complex"
+            C.append((f"inv{b}{k}", "inv", [A(*b, "n", "n", kind=kind)], {}, (0,)))
+            C.append((f"det{b}{k}", "det", [A(*b, "n", "n", kind=kind)], {}, (0,)))
+            C.append((f"slogdet{b}{k}", "slogdet", [A(*b, "n", "n", kind=kind)], {}, (0,)))
+            C.append((f"cholesky{b}{k}", "cholesky", [A(*b, "n", "n", kind=kind)], {}, (0,)))
+            C.append((f"pinv{b}{k}", "pinv", [A(*b, "m", "n", kind=kind)], {}, (0,)))
+            C.append((f"eigh{b}{k}", "eigh", [A(*b, "n", "n", kind=kind)], {}, (0,)))
+        # solve: every NumPy-2 shape class - matrix rhs with the same / no / broadcasting batch, 1-D vector rhs
+        C.append((f"solve{b} A x B same batch", "solve", [A(*b, "n", "n"), A(*b, "n", "k")], {}, (0, 1)))
+        C.append((f"solve{b} A x vector", "solve", [A(*b, "n", "n"), A("n")], {}, (0, 1)))
+        C.append((f"solve one A x B{b}", "solve", [A("n", "n"), A(*b, "n", "k")], {}, (0, 1)))
+        if b:
+            C.append((f"solve A{b} x one B", "solve", [A(*b, "n", "n"), A("n", "k")], {}, (0, 1)))
+            C.append((f"solve bcast batch {b}", "solve", [A(*((1,) + b[1:]), "n", "n"), A(*(b[:1] + (1,) * (len(b) - 1)), "n", "k")], {}, (0, 1)))
+    for shp, axes in ((("a",), (None, 0, -1)), (("a", "b"), (None, 0, 1, -1, (0, 1), (1, 0), (-2, -1))), (("a", "b", "c"), (0, -1, (0, 2), (2, 0), (1, -1)))):
+        for ax in axes:
+            for kind in ("real", "complex"):
+                for ord_ in ((None,) if tier == "quick" else (None, 2, 3)):
+                    if isinstance(ax, tuple) and ord_ not in (None,):
+                        continue
+                    kw = {} if ax is None else {"axis": ax}
+                    C.append((f"norm{shp} axis={ax} ord={ord_} {kind}", "norm", [A(*shp, kind=kind)] + ([("lit", ord_)] if ord_ is not None else []), kw, (0,)))
+    return C
+
+
+def run_linalg(rep, tier):
+    """E3 for autograd/numpy/linalg.py: for ALL sizes of the matrix and batch dimensions, the reverse rule returns an array of the argument's shape and kind
+    (forward rules where the module registers them)."""
+    try:
+        rv, rj, la, anp, dropped = load_linalg()
+    except CheckerError as e:
+        rep.obligation("E3:linalg:load", False, "-", 0, "E3")
+        rep.violation("E3:linalg:load", "autograd/numpy/linalg.py", f"the module no longer loads on the abstract namespace: {e}", witness=False, solver_output=str(e))
+        return
+    cases = _linalg_cases(tier)
+    rep.bound(f"E3 linalg: {len(cases)} call forms (inv/det/slogdet/cholesky/pinv/eigh with 0..{2 if tier == 'quick' else 3} batch dimensions, real and complex; solve in every NumPy-2 shape class "
+              "incl. broadcasting batches; norm over axis / axis pairs) enumerated; all dimension sizes symbolic")
+    rep.assume("NumPy-2 shape contracts of numpy.linalg in vlib/shapex.linalg_impls (inv, det, slogdet, cholesky, pinv, solve, eigh, norm): assumed; svd/eig/nuclear norm not modelled (uncovered)")
+    npaths = 0
+    for label, name, spec, kwargs, argnums in cases:
+        for a in argnums:
+            for mode in ("vjp", "jvp"):
+                case = f"{label}|arg{a}|{mode}"
+
+                def harness(L, name=name, spec=spec, kwargs=kwargs, a=a, mode=mode):
+                    _state["oblig"] = []
+                    args = _sym_args(L, spec, {})
+                    ans = getattr(la, name)(*args, **kwargs)
+                    _state["oblig"] = []
+                    tgt = args[a]
+                    mkcot = lambda v: tuple(mkcot(u) for u in v) if isinstance(v, tuple) else sx.SArr(sx.shape_of(v), sx.kind_of(v))
+                    if mode == "vjp":
+                        mk = rv.vjps.get((name, a))
+                        if mk is None:
+                            return None
+                        res = mk(ans, *args, **kwargs)(mkcot(ans))
+                        want = (sx.shape_of(tgt), sx.kind_of(tgt))
+                    else:
+                        r_ = rj.jvps.get((name, a))
+                        if not callable(r_):
+                            return None
+                        res = r_(mkcot(tgt), ans, *args, **kwargs)
+                        if isinstance(ans, tuple):
+                            return None
+                        want = (sx.shape_of(ans), sx.kind_of(ans))
+                    if not isinstance(res, sx.SArr):
+                        return None
+                    return (sx.shape_of(res), sx.kind_of(res)), list(_state["oblig"]), want
+
+                try:
+                    results, _ = cx.explore(harness)
+                except (shadow.NotModelled, CheckerError) as e:
+                    rep.uncover(f"E3 linalg: {case}: {e}"[:160])
+                    continue
+                for r in results:
+                    if r.exc is None and r.value is None:
+                        continue
+                    npaths += 1
+                    if r.exc is None:
+                        res, obl, want = r.value
+                        r.value = (res, obl)
+                    else:
+                        res, want = None, (None, None)
+                        if isinstance(r.exc, (shadow.NotModelled, NotImplementedError)):
+                            rep.uncover(f"E3 linalg: {case}: {type(r.exc).__name__}: {str(r.exc)[:60]}")
+                            continue
+                    _check_leaf(rep, tier, f"{mode}:linalg.{name}:{case}", r, res, want[0], want[1], case,
+                                dict(module="contracts.rules_shape", family="linalg", label=label, argnum=a, mode=mode))
+    rep.extra["e3_linalg_paths"] = npaths
+    audit_linalg(rep)
 
 
 def sym_shape(L, tag, rank):
@@ -475,6 +598,96 @@ def _native_struct(spec):
         return True, f"raises {type(e).__name__}: {str(e)[:80]} (allowed)", "-"
 
 
+def _native_args(aspec, sizes):
+    import numpy as onp
+
+    def dim(d):
+        return d if isinstance(d, int) else max(0, int(sizes.get(d, 2)))
+    args = []
+    for j, it in enumerate(aspec):
+        if it[0] == "A":
+            shp = tuple(dim(d) for d in it[1])
+            n = int(onp.prod(shp)) if shp else 1
+            arr = (onp.sin(onp.arange(n, dtype=float) * 1.7 + j) * 0.9 + 0.3).reshape(shp)
+            if len(shp) >= 2 and shp[-1] == shp[-2]:
+                arr = arr + 3.0 * onp.eye(shp[-1])       # well-conditioned
+            if len(it) > 2 and it[2] == "complex":
+                arr = arr + 1j * onp.cos(onp.arange(n, dtype=float) * 0.9 + j).reshape(shp) * 0.4
+            args.append(arr)
+        elif it[0] == "shape":
+            args.append(tuple(dim(d) for d in it[1]))
+        else:
+            args.append(it[1])
+    return args
+
+
+def _native_linalg(spec):
+    import numpy as onp
+
+    import autograd.numpy as anp
+    import autograd.numpy.linalg  # noqa
+    from autograd.core import make_jvp, make_vjp
+    case = next((c for c in _linalg_cases("thorough") if c[0] == spec["label"]), None)
+    if case is None:
+        return True, "case removed", ""
+    label, name, aspec, kwargs, argnums = case
+    args = _native_args(aspec, spec.get("sizes", {}))
+    a = spec["argnum"]
+    if name in ("cholesky", "eigh"):      # Hermitian positive definite argument
+        M = args[0]
+        args[0] = M @ onp.conj(onp.swapaxes(M, -1, -2)) + onp.eye(M.shape[-1])
+    f = lambda z: getattr(anp.linalg, name)(*[z if i == a else v for i, v in enumerate(args)], **kwargs)
+    try:
+        if spec["mode"] == "vjp":
+            vjp, val = make_vjp(f, args[a])
+            ones = lambda v: tuple(ones(u) for u in v) if isinstance(v, tuple) else onp.ones(onp.shape(v), dtype=onp.asarray(v).dtype)
+            r = onp.asarray(vjp(ones(val)))
+            ok = r.shape == onp.shape(args[a]) and bool(onp.iscomplexobj(r)) == bool(onp.iscomplexobj(args[a]))
+            return ok, f"gradient shape {r.shape} dtype {r.dtype} for argument shape {onp.shape(args[a])} dtype {args[a].dtype}", "the argument's shape and kind"
+        val, t = make_jvp(f, args[a])(onp.ones(onp.shape(args[a]), dtype=args[a].dtype))
+        return onp.shape(t) == onp.shape(val), f"tangent shape {onp.shape(t)} for output shape {onp.shape(val)}", "the output's shape"
+    except Exception as e:
+        return True, f"raises {type(e).__name__}: {str(e)[:80]} (allowed)", "-"
+
+
+def audit_linalg(rep):
+    """The assumed shape contracts of numpy.linalg against NumPy itself on small concrete sizes (every case of the family, sizes 0..3 per symbol, deterministic sample)."""
+    import numpy as onp
+    la = sx.linalg_impls()
+    n = bad = 0
+    for label, name, aspec, kwargs, argnums in _linalg_cases("thorough"):
+        syms = sorted({d for it in aspec if it[0] == "A" for d in it[1] if isinstance(d, str)})
+        for trial in range(4):
+            sizes = {s_: (1 + (trial + 2 * i) % 3) for i, s_ in enumerate(syms)}
+            args = _native_args(aspec, sizes)
+            if name in ("cholesky", "eigh"):
+                M = args[0]
+                args[0] = M @ onp.conj(onp.swapaxes(M, -1, -2)) + onp.eye(M.shape[-1])
+            try:
+                real = getattr(onp.linalg, name)(*args, **kwargs)
+            except Exception:
+                continue
+            res_, _ = cx.explore(lambda L: la[name](*[sx.SArr(v.shape, "complex" if onp.iscomplexobj(v) else "real") if isinstance(v, onp.ndarray) else v for v in args], **kwargs))
+            if len(res_) != 1 or res_[0].exc is not None:
+                n += 1
+                bad += 1
+                rep.violation("E3:linalg:contract-audit", f"{label}|{sizes}", f"assumed contract of linalg.{name} rejects / forks on a call NumPy accepts: {res_[0].exc if res_ else 'infeasible'}", witness=False,
+                              solver_output="the ASSUMED NumPy contract is wrong (a defect of the checker, not of autograd)")
+                continue
+            abstract = res_[0].value
+            shp = lambda v: tuple(shp(u) for u in v) if isinstance(v, tuple) else tuple(int(d) if isinstance(d, int) else int(z3.simplify(sx.dim_term(d)).as_long()) for d in sx.shape_of(v))
+            knd = lambda v: tuple(knd(u) for u in v) if isinstance(v, tuple) else sx.kind_of(v)
+            rshp = lambda v: tuple(rshp(u) for u in v) if isinstance(v, tuple) else tuple(onp.shape(v))
+            rknd = lambda v: tuple(rknd(u) for u in v) if isinstance(v, tuple) else ("complex" if onp.iscomplexobj(v) else "real")
+            n += 1
+            if shp(abstract) != rshp(tuple(real) if isinstance(real, tuple) else real) or knd(abstract) != rknd(tuple(real) if isinstance(real, tuple) else real):
+                bad += 1
+                rep.violation("E3:linalg:contract-audit", f"{label}|{sizes}", f"assumed contract of linalg.{name} gives {shp(abstract)} {knd(abstract)}, NumPy gives {rshp(real)} {rknd(real)}", witness=False,
+                              solver_output="the ASSUMED NumPy contract is wrong (a defect of the checker, not of autograd)")
+    rep.obligation("E3:linalg:contract-audit", bad == 0 and n > 0, "numpy(ground)", 0, "E3")
+    rep.extra["e3_linalg_contract_audit_cases"] = n
+
+
 def replay(spec):
     """Natively: the real autograd on float arrays of the concrete sizes of the counter-model; vspace(result) vs vspace(argument/output)."""
     import numpy as onp
@@ -483,6 +696,8 @@ def replay(spec):
     from autograd.core import make_jvp, make_vjp
     if spec.get("family") == "struct":
         return _native_struct(spec)
+    if spec.get("family") == "linalg":
+        return _native_linalg(spec)
     sizes = spec.get("sizes", {})
 
     def arr(tag, rank, kind):
